@@ -250,6 +250,9 @@ func (reg *Reg) referrerDelete(ctx context.Context, r ref.Ref, m manifest.Manife
 		return fmt.Errorf("refers is not set%.0w", errs.ErrNotFound)
 	}
 
+	// lock to avoid internal race conditions between pulling and pushing tag, and with the cached list
+	reg.muRefTag.Lock()
+	defer reg.muRefTag.Unlock()
 	// remove from cache
 	rSubject := r.SetDigest(subject.Digest.String())
 	reg.cacheRL.Delete(rSubject)
